@@ -2,6 +2,7 @@ package sym
 
 import (
 	"fmt"
+	"os"
 )
 
 const vhPath = "github.com/WICG/webpackage/go/internal/vh."
@@ -186,6 +187,13 @@ func (w *Worker) assertOb(fr *frame, cond *Term, label, kf string, kfPred *Term)
 		e.res.TrivialTrue++
 		e.mu.Unlock()
 		return
+	}
+	if traceDecisions {
+		c := cond.String()
+		if len(c) > 1800 {
+			c = c[:1800]
+		}
+		fmt.Fprintf(os.Stderr, "[assert %q] %s\n", label, c)
 	}
 	neg := T.Not(cond)
 	kfActive := kf != "" && e.Cfg.KnownActive[kf]
